@@ -12,28 +12,119 @@ import (
 	"strings"
 )
 
-// reduceArm returns the else-block of parse's `== accept / >= 0 / else` chain and the shift block.
+// parseArms finds, in parse's main loop, the three arms that decode an action value: accept
+// (`action == accept`), shift (`action >= 0`) and reduce (the remaining arm: else / default /
+// `action < 0`). If-else chains and tagless switches are both understood.
 func parseArms(ti *TmplInstance) (fd *ast.FuncDecl, shift, reduce *ast.BlockStmt, actVar string) {
 	fd, _ = ti.FuncDecl("_P.parse")
 	if fd == nil {
 		return
 	}
-	ast.Inspect(fd.Body, func(n ast.Node) bool {
-		ifs, ok := n.(*ast.IfStmt)
-		if !ok || reduce != nil {
-			return true
-		}
-		be, ok := ifs.Cond.(*ast.BinaryExpr)
+	info := ti.Info
+	isAccept := func(e ast.Expr) (string, bool) {
+		be, ok := ast.Unparen(e).(*ast.BinaryExpr)
 		if !ok || be.Op != token.EQL {
-			return true
+			return "", false
 		}
-		if k, ok := usesObj(ti.Info, be.Y).(*types.Const); !ok || k.Name() != "accept" {
-			return true
+		if k, ok := usesObj(info, be.Y).(*types.Const); ok && k.Name() == "accept" {
+			return exprString(be.X), true
 		}
-		if e2, ok := ifs.Else.(*ast.IfStmt); ok {
-			shift = e2.Body
-			reduce, _ = e2.Else.(*ast.BlockStmt)
-			actVar = exprString(be.X)
+		if k, ok := usesObj(info, be.X).(*types.Const); ok && k.Name() == "accept" {
+			return exprString(be.Y), true
+		}
+		return "", false
+	}
+	isShift := func(e ast.Expr, v string) bool {
+		be, ok := ast.Unparen(e).(*ast.BinaryExpr)
+		if !ok {
+			return false
+		}
+		z, isC := constInt(info, be.Y)
+		return isC && z == 0 && be.Op == token.GEQ && exprString(be.X) == v
+	}
+	isReduce := func(e ast.Expr, v string) bool {
+		be, ok := ast.Unparen(e).(*ast.BinaryExpr)
+		if !ok {
+			return false
+		}
+		z, isC := constInt(info, be.Y)
+		return isC && z == 0 && be.Op == token.LSS && exprString(be.X) == v
+	}
+	blk := func(list []ast.Stmt, at token.Pos) *ast.BlockStmt {
+		b := &ast.BlockStmt{List: list, Lbrace: at, Rbrace: at}
+		if len(list) > 0 {
+			b.Lbrace = list[0].Pos()
+			b.Rbrace = list[len(list)-1].End()
+		}
+		return b
+	}
+	ast.Inspect(fd.Body, func(n ast.Node) bool {
+		if reduce != nil {
+			return false
+		}
+		switch x := n.(type) {
+		case *ast.IfStmt:
+			v, ok := isAccept(x.Cond)
+			if !ok {
+				return true
+			}
+			if e2, ok := x.Else.(*ast.IfStmt); ok && isShift(e2.Cond, v) {
+				actVar = v
+				shift = e2.Body
+				switch e3 := e2.Else.(type) {
+				case *ast.BlockStmt:
+					reduce = e3
+				case *ast.IfStmt:
+					if isReduce(e3.Cond, v) {
+						reduce = e3.Body
+					}
+				}
+			}
+		case *ast.SwitchStmt:
+			if x.Tag != nil {
+				return true
+			}
+			var v string
+			var sh, rd, def []ast.Stmt
+			var defPos token.Pos
+			for _, cl := range x.Body.List {
+				cc := cl.(*ast.CaseClause)
+				if cc.List == nil {
+					def, defPos = cc.Body, cc.Pos()
+					continue
+				}
+				if len(cc.List) != 1 {
+					continue
+				}
+				if vv, ok := isAccept(cc.List[0]); ok {
+					v = vv
+				}
+			}
+			if v == "" {
+				return true
+			}
+			for _, cl := range x.Body.List {
+				cc := cl.(*ast.CaseClause)
+				if len(cc.List) != 1 {
+					continue
+				}
+				if isShift(cc.List[0], v) {
+					sh = cc.Body
+					shift = blk(sh, cc.Pos())
+				}
+				if isReduce(cc.List[0], v) {
+					rd = cc.Body
+					reduce = blk(rd, cc.Pos())
+				}
+			}
+			if reduce == nil && def != nil {
+				reduce = blk(def, defPos)
+			}
+			if shift != nil && reduce != nil {
+				actVar = v
+			} else {
+				shift, reduce = nil, nil
+			}
 		}
 		return true
 	})
@@ -365,52 +456,108 @@ func extractNormalize(c *Ctx) ([]sugarShape, string) {
 				sh.namePat, _ = constString(info, x.Args[0])
 			}
 		}
-		// productions
+		// productions: the value assigned to r.Prods, possibly built by a same-package helper
 		fl, ok := gen.Args[1].(*ast.FuncLit)
 		if !ok {
 			return nil, "generate's second argument is not a function literal"
+		}
+		var classifyTerm func(e ast.Expr, env map[types.Object]string) string
+		classifyTerm = func(e ast.Expr, env map[types.Object]string) string {
+			e = ast.Unparen(e)
+			if u, ok := e.(*ast.UnaryExpr); ok && u.Op == token.AND {
+				e = u.X
+			}
+			switch x := e.(type) {
+			case *ast.Ident:
+				if k, ok := env[info.Uses[x]]; ok {
+					return k
+				}
+				return "?" + x.Name
+			case *ast.SelectorExpr:
+				switch x.Sel.Name {
+				case "Child":
+					return "c"
+				case "Sep":
+					return "sep"
+				}
+				return "?" + x.Sel.Name
+			case *ast.CompositeLit:
+				if nm := kvOf(x, "Name"); nm != nil && strings.HasSuffix(exprString(nm), ".Name") {
+					return "self"
+				}
+				if ty := kvOf(x, "Type"); ty != nil && usesObj(info, ty) != nil {
+					return "sugar(" + usesObj(info, ty).Name() + ")"
+				}
+				return "?lit"
+			}
+			return "?"
+		}
+		var prodsOf func(e ast.Expr, env map[types.Object]string, depth int) ([][]string, bool)
+		prodsOf = func(e ast.Expr, env map[types.Object]string, depth int) ([][]string, bool) {
+			e = ast.Unparen(e)
+			switch x := e.(type) {
+			case *ast.CompositeLit:
+				var prods [][]string
+				for _, pe := range x.Elts {
+					pcl := compositeOf(pe)
+					if pcl == nil {
+						if l, ok := pe.(*ast.CompositeLit); ok {
+							pcl = l
+						} else {
+							return nil, false
+						}
+					}
+					var terms []string
+					if t := kvOf(pcl, "Terms"); t != nil {
+						tl, ok := t.(*ast.CompositeLit)
+						if !ok {
+							return nil, false
+						}
+						for _, te := range tl.Elts {
+							terms = append(terms, classifyTerm(te, env))
+						}
+					}
+					prods = append(prods, terms)
+				}
+				return prods, true
+			case *ast.CallExpr:
+				fn := calleeFunc(info, x)
+				if fn == nil || fn.Pkg() != pk.Types || depth > 1 {
+					return nil, false
+				}
+				hd := p.funcDecls[fn.Origin()]
+				if hd == nil || hd.Body == nil {
+					return nil, false
+				}
+				env2 := map[types.Object]string{}
+				k := 0
+				for _, fld := range hd.Type.Params.List {
+					for _, nm := range fld.Names {
+						if k < len(x.Args) {
+							env2[info.Defs[nm]] = classifyTerm(x.Args[k], env)
+						}
+						k++
+					}
+				}
+				var res [][]string
+				okRes := false
+				ast.Inspect(hd.Body, func(n ast.Node) bool {
+					if rs, ok := n.(*ast.ReturnStmt); ok && len(rs.Results) == 1 && !okRes {
+						res, okRes = prodsOf(rs.Results[0], env2, depth+1)
+					}
+					return true
+				})
+				return res, okRes
+			}
+			return nil, false
 		}
 		ast.Inspect(fl.Body, func(n ast.Node) bool {
 			as, ok := n.(*ast.AssignStmt)
 			if !ok || len(as.Lhs) != 1 || !isField(info, as.Lhs[0], "internal/ast", "ParserRule", "Prods") {
 				return true
 			}
-			cl, ok := as.Rhs[0].(*ast.CompositeLit)
-			if !ok {
-				return true
-			}
-			for _, pe := range cl.Elts {
-				pcl, ok := pe.(*ast.CompositeLit)
-				if !ok {
-					continue
-				}
-				var terms []string
-				if t := kvOf(pcl, "Terms"); t != nil {
-					for _, te := range t.(*ast.CompositeLit).Elts {
-						switch x := ast.Unparen(te).(type) {
-						case *ast.SelectorExpr:
-							switch x.Sel.Name {
-							case "Child":
-								terms = append(terms, "c")
-							case "Sep":
-								terms = append(terms, "sep")
-							default:
-								terms = append(terms, "?"+x.Sel.Name)
-							}
-						case *ast.CompositeLit:
-							if nm := kvOf(x, "Name"); nm != nil && strings.HasSuffix(exprString(nm), ".Name") {
-								terms = append(terms, "self")
-							} else if ty := kvOf(x, "Type"); ty != nil {
-								terms = append(terms, "sugar("+usesObj(info, ty).Name()+")")
-							} else {
-								terms = append(terms, "?lit")
-							}
-						default:
-							terms = append(terms, "?")
-						}
-					}
-				}
-				sh.prods = append(sh.prods, terms)
+			if prods, ok := prodsOf(as.Rhs[0], map[types.Object]string{}, 0); ok {
+				sh.prods = prods
 			}
 			return true
 		})
@@ -711,17 +858,27 @@ func ruleBIND1(c *Ctx) {
 	}
 	info := pk.TypesInfo
 	var calls []*ast.CallExpr
-	ast.Inspect(fd.Body, func(n ast.Node) bool {
-		if call, ok := n.(*ast.CallExpr); ok {
-			if fn := calleeFunc(info, call); fn != nil && fn.Pkg() != nil && fn.Pkg().Path() == "go/types" {
-				switch fn.Name() {
-				case "AssignableTo", "Identical", "ConvertibleTo", "Implements", "IdenticalIgnoreTags", "Satisfies":
-					calls = append(calls, call)
+	matchFd := fd
+	for _, sc := range funcScope(p, pk, fd, 1) {
+		owner, isDecl := sc.node.(*ast.FuncDecl)
+		if !isDecl || (owner != fd && owner.Name.Name == "getTermGoType") {
+			continue
+		}
+		ast.Inspect(owner, func(n ast.Node) bool {
+			if call, ok := n.(*ast.CallExpr); ok {
+				if fn := calleeFunc(info, call); fn != nil && fn.Pkg() != nil && fn.Pkg().Path() == "go/types" {
+					switch fn.Name() {
+					case "AssignableTo", "Identical", "ConvertibleTo", "Implements", "IdenticalIgnoreTags", "Satisfies":
+						calls = append(calls, call)
+						matchFd = owner
+					}
 				}
 			}
-		}
-		return true
-	})
+			return true
+		})
+	}
+	outer := fd
+	fd = matchFd
 	if len(calls) != 1 || calleeFunc(info, calls[0]).Name() != "AssignableTo" {
 		c.bad(rule, "codegen.context.matchMethod/predicate", p.Pos(fd.Pos()), "the parameter match is not decided by exactly one types.AssignableTo call (%d go/types predicates found)", len(calls))
 		return
@@ -775,6 +932,7 @@ func ruleBIND1(c *Ctx) {
 	c.check(okArity, rule, "codegen.context.matchMethod/arity", p.Pos(fd.Pos()), "a method matches only if its parameter count equals the production's term count", "the parameter count is not compared with the term count before the types")
 	// all methods of the rule are tried and every match kept
 	okAll := false
+	fd = outer
 	ast.Inspect(fd.Body, func(n ast.Node) bool {
 		if rs, ok := n.(*ast.RangeStmt); ok && usesObj(info, rs.X) == paramObj(info, fd, 1) {
 			early := false
@@ -1079,10 +1237,23 @@ func ruleBIND4(c *Ctx) {
 	_, im := p.FuncDecl("internal/codegen", "imports.Import")
 	okImp := wt != nil && im != nil
 	if okImp {
+		var stored *types.Var
+		ast.Inspect(im.Body, func(n ast.Node) bool {
+			if as, ok := n.(*ast.AssignStmt); ok && len(as.Lhs) == 1 {
+				if ix, ok := as.Lhs[0].(*ast.IndexExpr); ok {
+					if fv, _ := selField(info, ix.X); fv != nil {
+						stored = fv
+					}
+				}
+			}
+			return true
+		})
 		rangesAll := false
 		ast.Inspect(wt.Body, func(n ast.Node) bool {
-			if rs, ok := n.(*ast.RangeStmt); ok && isField(info, rs.X, "internal/codegen", "imports", "imports") {
-				rangesAll = true
+			if rs, ok := n.(*ast.RangeStmt); ok {
+				if fv, _ := selField(info, rs.X); fv != nil && fv == stored {
+					rangesAll = true
+				}
 			}
 			return true
 		})
